@@ -22,7 +22,7 @@ Your task: for EACH of the two properties produce TWO different, independent sou
   (2) still imports/compiles, and the existing test suite still passes completely with the change (`cd /tmp/wt-{gid} && /venv/bin/python -m pytest -q -p no:cacheprovider` -> 190 passed),
   (3) is REALISTIC - the kind of slip a maintainer could make in a refactor, optimisation, bug-fix-gone-wrong or feature patch (not sabotage, not `if x == 12345`), and
   (4) needs something specific to manifest: a particular multi-step sequence of operations, an unusual-but-legal input (flexible operations with several machines, zero durations, jobs of different lengths, recirculation, a second episode after reset, >= 100 steps, a query issued after another query, ids equal to 0...), or two cooperating code sites that each look fine alone. Do NOT produce changes that ordinary use would expose at once.
-""" + ("""This round asks for a particular packaging: each change must look like a REAL COMMIT of roughly 20-70 changed lines that is mostly legitimate work - a refactor (helpers extracted or inlined, a loop turned into a comprehension or numpy expression, state moved between attributes, early returns reorganised), a small feature (new optional argument, new convenience property) or a performance patch - and the property-breaking slip is a small part of it, the kind a reviewer would skim past. The legitimate part must really be behaviour-preserving; only the slip changes behaviour. Vary the mechanism of the slip across your four changes and avoid the most obvious ones (deleting a reset line, dropping a single check). """ if STYLE=="commit" else "") + f"""Be inventive: prefer mechanisms such as caching/memoisation added in the wrong place, aliasing of mutable objects, off-by-one at boundaries, wrong-but-plausible default handling, state kept across episodes, order of observer notification/acquisition, conditions that are equivalent only for 'normal' inputs, integer/float or truthiness slips, partial updates of parallel data structures. The four changes should differ from each other in mechanism and location.
+""" + ("""This round asks for a particular packaging: each change must look like a REAL COMMIT of roughly 20-70 changed lines that is mostly legitimate work - a refactor (helpers extracted or inlined, a loop turned into a comprehension or numpy expression, state moved between attributes, early returns reorganised), a small feature (new optional argument, new convenience property) or a performance patch - and the property-breaking slip is a small part of it, the kind a reviewer would skim past. The legitimate part must really be behaviour-preserving; only the slip changes behaviour. Vary the mechanism of the slip across your four changes and avoid the most obvious ones (deleting a reset line, dropping a single check). """ if STYLE=="commit" else "") + ("""This round asks for a particular packaging: each change must look like a FEATURE COMMIT of roughly 30-90 changed lines - it adds something new (an optional keyword argument whose default keeps today's behaviour, a new public method / property / classmethod constructor with existing code re-expressed through it, a new registered rule / filter / observer / transformation, a hook or callback defaulting to a no-op, a verbose flag or logging, richer error messages, a copy()/to_*() helper, an iterator or context-manager protocol). The feature itself must be correct and useful; the property-breaking slip is a small part of the commit that changes the EXISTING behaviour (what callers who never use the new feature observe) - for example while existing code is re-routed through the new method, while a default is threaded through several layers, while a constructor is split, or while an error path is rewritten. A reviewer skimming the diff should see a feature, not a bug. Vary the mechanism of the slip across your four changes. """ if STYLE=="feature" else "") + f"""Be inventive: prefer mechanisms such as caching/memoisation added in the wrong place, aliasing of mutable objects, off-by-one at boundaries, wrong-but-plausible default handling, state kept across episodes, order of observer notification/acquisition, conditions that are equivalent only for 'normal' inputs, integer/float or truthiness slips, partial updates of parallel data structures. The four changes should differ from each other in mechanism and location.
 
 For each change write into /tmp/seed-{gid}/<property id>-<k>/ (k = 1, 2), e.g. /tmp/seed-{gid}/{pids[0]}-1/ :
   - patch.diff : `git diff` of the change against HEAD (library source only, under job_shop_lib/; do not edit tests)
